@@ -575,6 +575,7 @@ func genExtract(t *rapid.T) *ExtractCase {
 	c.N = rapid.IntRange(1, 4).Draw(t, "n")
 	c.K = rapid.IntRange(1, np+1).Draw(t, "k")
 	c.Inplace = rapid.Bool().Draw(t, "inplace")
+	c.Digest = rapid.SampledFrom([]string{"", "", "sha256"}).Draw(t, "digest")
 	c.Death = rapid.SampledFrom([]string{"kill", "kill", "kill", "err", "strace-kill", "strace-kill", "strace-err"}).Draw(t, "death")
 	if c.straced() { // final_test.go: the whole run under strace, one call killed or failed
 		fams := []string{"rename", "rename", "unlink", "unlink", "truncate", "open", "open", "link", "chmod"}
@@ -605,7 +606,7 @@ var spec = &hx.Spec[Case]{
 	Level: "fault_enumeration",
 	Rule: "store cases = (1..4 chunks, compressed or not, 1 pinned writer or 2..4 concurrent writers incl. the same chunk from several, optional pre-existing chunk/prefix directory, " +
 		"crash point = SIGKILL at the entry of the c-th mkdirat/openat/write/close/renameat/unlinkat of the writer thread (strace inject), or RLIMIT_FSIZE=b with and without a kill at the write that follows the cut one); " +
-		"extract cases = (1..10 chunk positions over 1..7 distinct chunks, -n 1..4, with/without -k, prior destination absent/empty/garbage/partly right/complete, SIGKILL while the k-th chunk request is held, or a 404 on it, " +
+		"extract cases = (1..10 chunk positions over 1..7 distinct chunks, -n 1..4, with/without -k, digest sha512-256 or sha256 (index, store objects and --digest), prior destination absent/empty/garbage/partly right/complete, SIGKILL while the k-th chunk request is held, or a 404 on it, " +
 		"or the whole extract under strace -f with all requests answered and the c-th (per thread) open*/truncate/unlink*/rename*/link*/chmod* call killed at its entry or failed with EIO/EXDEV/ENOSPC/EACCES: " +
 		"oracle for non -k = destination byte- and inode-identical to before, or the complete blob once a rename/link onto it was seen to return 0; for -k the re-run oracle). " +
 		"non-trivial = the store child died while a temporary created by StoreChunk existed and was not yet renamed (seen in the strace log) or a write was cut at 0 < b < stored length; " +
@@ -622,7 +623,7 @@ var spec = &hx.Spec[Case]{
 		"store:write-cut-short", "store:write-cut-short+killed", "store:fsize=0", "store:leftover-pruned", "store:same-chunk-twice", "store:overwrites-existing-chunk", "store:not-killed",
 		"store:killed-at=mkdirat", "store:killed-at=openat", "store:killed-at=write", "store:killed-at=close", "store:killed-at=renameat", "store:killed-at=unlinkat",
 		"extract:inplace-died-midway", "extract:tmpfile-died-midway", "extract:prior=absent", "extract:prior=partial", "extract:prior=garbage", "extract:n>1", "extract:death=kill", "extract:death=err",
-		"extract:rerun-with-some-present",
+		"extract:rerun-with-some-present", "extract:digest=sha256", "extract:digest=sha256:inplace-rerun",
 		"extract:death=strace-kill", "extract:death=strace-err", "extract:final-phase-kill", "extract:killed-at-rename", "extract:rename-failed", "extract:inplace-syscall-death"},
 	Gen: genCase,
 	Run: run,
@@ -892,6 +893,11 @@ func enumExtract() (cases []Case) {
 						for k := 1; k <= len(l.layout)+1; k++ {
 							cases = append(cases, Case{Part: "extract", Extract: &ExtractCase{Chunks: l.chunks, Layout: l.layout, N: n, K: k, Inplace: inplace,
 								Death: death, Prior: prior, PriorSeed: uint64(0x5a5a5a5a5a5a5a5a) >> uint(li), PriorLen: 1234}})
+							// the other digest: every k, in place (the re-run oracle hashes what is already there), one layout in quick
+							if inplace && death == "kill" && (li == 0 || hx.Thorough()) {
+								cases = append(cases, Case{Part: "extract", Extract: &ExtractCase{Chunks: l.chunks, Layout: l.layout, N: n, K: k, Inplace: true, Digest: "sha256",
+									Death: death, Prior: prior, PriorSeed: uint64(0x5a5a5a5a5a5a5a5a) >> uint(li), PriorLen: 1234}})
+							}
 						}
 					}
 				}
@@ -942,7 +948,7 @@ func TestEnum(t *testing.T) {
 		return
 	}
 	hx.AddNote("enumerated_extract_kill_points", len(my))
-	hx.Exhaustive("extract: every request index k for two fixed layouts x listed (n, -k, prior, death) grid")
+	hx.Exhaustive("extract: every request index k for two fixed layouts x listed (n, -k, prior, death) grid, + digest sha256 for the -k kills")
 	for i, base := range enumFinalConfigs() {
 		if !mine() {
 			continue
